@@ -113,8 +113,7 @@ def check_pred(ctx):
         ctx.check(not cmps, inst, "SIBLING", b.path, "no unreviewed expiry comparison", b.where(cmps[0][0]) if cmps else None, nontrivial=bool(cmps))
 
 
-def check_lazy(ctx):
-    inst = "C11.lazy"
+def check_lazy(ctx, inst="C11.lazy"):
     b = ctx.fn("FeoxStore::resolve_record_value", inst)
     if b is not None:
         tiers = ctx.sites(b, R.call("Record::get_value", "FeoxStore::load_value_from_disk") | R.call("Option::and_then").filter(
@@ -125,6 +124,13 @@ def check_lazy(ctx):
         ctx.check(bool(ttl_off), inst, "anchor", b.path, "enable_ttl is tested", None)
         if cmps:
             s = cmps[0][0]
+            # the lazy test reads the clock itself, at the moment the value is resolved: a timestamp handed in by the caller
+            # (taken once per scan, per batch, ...) can be arbitrarily old by the time this record's bytes are produced
+            other = cmps[0][2].root.a[1]
+            fresh = (other.has_call("SystemTime::now") or other.has_call("FeoxStore::get_timestamp_pub")) and \
+                not any(x.k == "arg" and x.extra[0] > 1 for x in other.walk())
+            ctx.check(fresh, inst, "PROVENANCE", b.path, "the lazy expiry test compares with a clock read inside resolve_record_value (no caller-supplied `now`)",
+                      b.where(s), {"other": other.show()})
             not_expired = [(s, l) for l, v in cmps[0][2].edge_vals.items() if v == "false"]
             expired = [(s, l) for l, v in cmps[0][2].edge_vals.items() if v == "true"]
             # [enable_ttl, expiry > 0] every tier is reached only through the not-expired edge
